@@ -69,6 +69,10 @@ FIXED = [
  ("fix: fscache.Set works on its own copy of the value", ["C14"], "Set returned on its timeout while the abandoned write went on reading the caller's buffer: a caller that reused the buffer got bytes stored that it never passed to Set (C14 timeout-isolation)"),
  ("fix: list members that differ in their parameters are different members", ["C04"], "'application/json;version=1, application/json;version=2' selected the variant of 'application/json;version=1'; 'x-gzip-ng' selected the variant of 'gzip-ng' (C04 histories with such values)"),
  ("fix: a response received on a validation is filed under the client's request fields", ["C19"], "with 'Vary: If-None-Match' every validation filed its reply under the validator the cache had added: one more key per request, without bound (C19 policy vary-inm)"),
+ ("fix: the replayed part of a failed body also reports the failure to io.Copy", ["C05"], "the replayed prefix of a failed body exposed bytes.Reader's WriteTo: io.Copy returned the bytes without the error (C05 monitor, callers that read with io.Copy)"),
+ ("fix: fold the case of selecting header values in ASCII only", ["C04"], "strings.ToLower merged 'bot \\xe8' with 'bot \\xe9' (both become U+FFFD) and U+212A with 'k' under Vary: User-Agent (C04 histories with such values)"),
+ ("fix: the age of a freshened response restarts with the 304", ["C08", "C11"], "the Age field a response had arrived with was counted on top of the restarted age after a 304 without Age: too early revalidation and a too large Age (C08 chains with Age on an earlier 304; the oracle no longer accepts the carried-over Age)"),
+ ("fix: a late full reply to a validation does not replace an entry that was requested after it", ["C08"], "a late full reply of a background validation replaced the newer representation a reload had stored meanwhile (C08 inflight, background reply 200)"),
 ]
 log = subprocess.run(["git", "-C", "/repo", "log", "--format=%h %s"], capture_output=True, text=True).stdout.splitlines()
 kf_path = os.path.join(ROOT, "known_findings.json")
